@@ -197,6 +197,8 @@ type Engine struct {
 	curUses       map[string]bool
 	missingAnchors map[string]bool
 	sliceBindActive bool
+	ctWriteCache  map[*ssa.Function]map[int]bool
+	ctWriteBusy   map[*ssa.Function]bool
 	groundDone    bool
 	groundFacts   []*Term
 	groundResults []GroundResult
